@@ -20,6 +20,7 @@ import Sftp.Driver.Dispatch
 import Sftp.Driver.C05Composite
 import Sftp.Driver.C03Chan
 import Sftp.Driver.C19Ext
+import Sftp.Driver.MultiHandle
 /-
   `sftpmodel`: line-protocol driver for the executable models.
   One case per input line (`op arg…`), one output line per case.
@@ -29,7 +30,7 @@ open Sftp
 def allOps : List (String × (List String → String)) :=
   Sftp.Driver.C17.ops ++ Sftp.Driver.C17Ls.ops ++ Sftp.Driver.C17Time.ops ++ Sftp.Driver.C09.ops ++ Sftp.Driver.C10Path.ops ++ Sftp.Driver.Codec.ops ++
   Sftp.Driver.C16.ops ++ Sftp.Driver.C15.ops ++ Sftp.Driver.C02.ops ++
-  Sftp.Driver.C18.ops ++ Sftp.Driver.C11.ops ++ Sftp.Driver.ClientConn.ops ++ Sftp.Driver.Transfer.ops ++ Sftp.Driver.C10.ops ++ Sftp.Driver.C06.ops ++ Sftp.Driver.C19.ops ++ Sftp.Driver.C20.ops ++ Sftp.Driver.Cur.ops ++ Sftp.Driver.Dispatch.ops ++ Sftp.Driver.C05Composite.ops ++ Sftp.Driver.C03Chan.ops ++ Sftp.Driver.C19Ext.ops
+  Sftp.Driver.C18.ops ++ Sftp.Driver.C11.ops ++ Sftp.Driver.ClientConn.ops ++ Sftp.Driver.Transfer.ops ++ Sftp.Driver.C10.ops ++ Sftp.Driver.C06.ops ++ Sftp.Driver.C19.ops ++ Sftp.Driver.C20.ops ++ Sftp.Driver.Cur.ops ++ Sftp.Driver.Dispatch.ops ++ Sftp.Driver.C05Composite.ops ++ Sftp.Driver.C03Chan.ops ++ Sftp.Driver.C19Ext.ops ++ Sftp.Driver.MultiHandle.ops
 
 def step (line : String) : String :=
   match (line.trimAscii.toString.splitOn " ").filter (· ≠ "") with
